@@ -152,15 +152,71 @@ def extract2(repo):
     return res
 
 
+SRC3 = "kaira/models/image/tung2022_deepjscc_q.py"
+# residual / attention / attention-feature units of the Tung-2022 models (compressai blocks and kaira's AFModule), by what they do to the size
+BLOCKS = {"ResidualBlock": "Same", "AttentionBlock": "Same", "AFModule": "Same", "ResidualBlockWithStride": "Half", "ResidualBlockUpsample": "Double"}
+
+
+def _block_layers(cls):
+    init = next((f for f in cls.body if isinstance(f, ast.FunctionDef) and f.name == "__init__"), None)
+    fwd = next((f for f in cls.body if isinstance(f, ast.FunctionDef) and f.name == "forward"), None)
+    if init is None or fwd is None:
+        raise TranslateError("%s: __init__ / forward not found" % cls.name)
+    lists = [n for n in ast.walk(init) if isinstance(n, ast.Call) and isinstance(n.func, ast.Attribute) and n.func.attr == "ModuleList"]
+    if len(lists) != 1 or len(lists[0].args) != 1 or not isinstance(lists[0].args[0], ast.List):
+        raise TranslateError("%s: expected exactly one nn.ModuleList([...])" % cls.name)
+    # forward: one loop over the module list; every statement in it that assigns x applies the layer to x; the result is x
+    loops = [n for n in ast.walk(fwd) if isinstance(n, ast.For)]
+    if len(loops) != 1 or not (isinstance(loops[0].iter, ast.Attribute) and isinstance(loops[0].target, ast.Name)):
+        raise TranslateError("%s.forward: expected one loop over the module list" % cls.name)
+    lv = loops[0].target.id
+    assigns = [n for n in ast.walk(loops[0]) if isinstance(n, ast.Assign)]
+    if not assigns or not all(len(a.targets) == 1 and isinstance(a.targets[0], ast.Name) and a.targets[0].id == "x" and isinstance(a.value, ast.Call)
+                              and isinstance(a.value.func, ast.Name) and a.value.func.id == lv and a.value.args and isinstance(a.value.args[0], ast.Name) and a.value.args[0].id == "x" for a in assigns):
+        raise TranslateError("%s.forward: the loop body is not `x = layer(x, ...)`" % cls.name)
+    rets = [n for n in ast.walk(fwd) if isinstance(n, ast.Return)]
+    if len(rets) != 1 or not (isinstance(rets[0].value, ast.Name) and rets[0].value.id == "x"):
+        raise TranslateError("%s.forward does not return x" % cls.name)
+    out = []
+    for c in lists[0].args[0].elts:
+        fname = c.func.id if isinstance(c, ast.Call) and isinstance(c.func, ast.Name) else None
+        if fname not in BLOCKS:
+            raise TranslateError("%s: unrecognised block %s" % (cls.name, fname))
+        kws = {kw.arg: kw.value for kw in c.keywords}
+        if fname == "ResidualBlockWithStride" and not (isinstance(kws.get("stride"), ast.Constant) and kws["stride"].value == 2):
+            raise TranslateError("%s: ResidualBlockWithStride with a stride other than the literal 2" % cls.name)
+        if fname == "ResidualBlockUpsample" and not (isinstance(kws.get("upsample"), ast.Constant) and kws["upsample"].value == 2):
+            raise TranslateError("%s: ResidualBlockUpsample with an upsampling factor other than the literal 2" % cls.name)
+        out.append(("Block", BLOCKS[fname]))
+    return out
+
+
+def extract3(repo):
+    try:
+        tree = ast.parse(open(os.path.join(repo, SRC3)).read())
+    except (OSError, SyntaxError) as e:
+        raise TranslateError("cannot parse %s: %s" % (SRC3, e))
+    want = {"Tung2022DeepJSCCQEncoder": "tung_q_encoder", "Tung2022DeepJSCCQDecoder": "tung_q_decoder", "Tung2022DeepJSCCQ2Encoder": "tung_q2_encoder", "Tung2022DeepJSCCQ2Decoder": "tung_q2_decoder"}
+    res = {}
+    for cls in tree.body:
+        if isinstance(cls, ast.ClassDef) and cls.name in want:
+            res[want[cls.name]] = _block_layers(cls)
+    if len(res) != 4:
+        raise TranslateError("Tung-2022 encoder / decoder classes not found: %s" % sorted(set(want.values()) - set(res)))
+    return res
+
+
 def generate(repo):
     d = extract(repo)
     d2 = extract2(repo)
+    d3 = extract3(repo)
 
     def lst(ls):
-        return "[" + "; ".join("%s %s" % (k, " ".join("%d" % v for v in nums)) for k, nums in ls) + "]"
+        return "[" + "; ".join(("Block %s" % nums) if k == "Block" else "%s %s" % (k, " ".join("%d" % v for v in nums)) for k, nums in ls) + "]"
     text = ("(* GENERATED from %s by harness/translate/archs.py -- do not edit *)\n"
             "From Coq Require Import ZArith List.\nImport ListNotations.\nFrom KV Require Import Diff.ConvShape.\nLocal Open Scope Z_scope.\n"
             "Definition bourtsoulatze_encoder : list layer := %s.\nDefinition bourtsoulatze_decoder : list layer := %s.\n"
             "(* from %s *)\nDefinition kurka_encoder : list layer := %s.\nDefinition kurka_decoder : list layer := %s.\n"
             % (SRC, lst(d["Bourtsoulatze2019DeepJSCCEncoder"]), lst(d["Bourtsoulatze2019DeepJSCCDecoder"]), SRC2, lst(d2["DeepJSCCFeedbackEncoder"]), lst(d2["DeepJSCCFeedbackDecoder"])))
+    text += "(* from %s *)\n" % SRC3 + "".join("Definition %s : list layer := %s.\n" % (nm, lst(d3[nm])) for nm in ("tung_q_encoder", "tung_q_decoder", "tung_q2_encoder", "tung_q2_decoder"))
     return {"Arch.v": text}
